@@ -41,11 +41,14 @@ func runC23(t *testing.T, tp *simrt.Tape, keepTrace bool) hx.Result {
 	cfg.KeepTrace = keepTrace
 	cfg.MaxProcs = []int{1, 2, 4, 16}[tp.Gen(4)]
 	cfg.MaxSteps = 80000
-	corpus := getCorpus(tp.Gen(nCorpora))
-	owner := map[string]int{}
+	cid := tp.Gen(nCorpora)
+	if tp.Gen(3) == 0 {
+		cid += 100 // two tenants own a repository of the same name
+	}
+	corpus := getCorpus(cid)
+	dupNames := cid >= 100
 	ownerID := map[uint32]int{}
 	for _, r := range corpus.Repos {
-		owner[r.Repo.Name] = r.Repo.TenantID
 		ownerID[r.Repo.ID] = r.Repo.TenantID
 	}
 	run := &sRun{Corpus: corpus, Width: cfg.MaxProcs, Cap: int64(tp.GenRange(1, 4))}
@@ -60,6 +63,12 @@ func runC23(t *testing.T, tp *simrt.Tape, keepTrace bool) hx.Result {
 			c := &sCall{Kind: []string{"search", "stream", "list", "search"}[tp.Gen(4)]}
 			c.Q = genQuery(tp, corpus, true)
 			c.Opts = genBaseOpts(tp)
+			if tp.Gen(3) == 0 {
+				// match limits change how the evaluator walks the documents of a shard
+				c.Opts.ShardRepoMaxMatchCount = []int{0, 1, 2, 5}[tp.Gen(4)]
+				c.Opts.ShardMaxMatchCount = []int{0, 1, 3, 1000}[tp.Gen(4)]
+				c.Opts.TotalMaxMatchCount = []int{0, 2, 1000}[tp.Gen(3)]
+			}
 			if c.Kind == "list" {
 				switch tp.Gen(3) {
 				case 1:
@@ -113,17 +122,6 @@ func runC23(t *testing.T, tp *simrt.Tape, keepTrace bool) hx.Result {
 					continue
 				}
 				evals++
-				allowed := func(name string) bool {
-					switch w {
-					case 0:
-						return owner[name] == 1
-					case 1:
-						return owner[name] == 2
-					case 2:
-						return false
-					}
-					return true
-				}
 				allowedID := func(id uint32) bool {
 					switch w {
 					case 0:
@@ -135,11 +133,24 @@ func runC23(t *testing.T, tp *simrt.Tape, keepTrace bool) hx.Result {
 					}
 					return true
 				}
+				// URL templates of the corpora name their tenant ("http://t1.example/...", "#t2r1L...")
+				allowedURL := func(u string) bool {
+					switch w {
+					case 0:
+						return !strings.Contains(u, "t2.example") && !strings.HasPrefix(u, "#t2")
+					case 1:
+						return !strings.Contains(u, "t1.example") && !strings.HasPrefix(u, "#t1")
+					case 2:
+						return false
+					}
+					return true
+				}
+				limited := c.Opts.ShardRepoMaxMatchCount+c.Opts.ShardMaxMatchCount+c.Opts.TotalMaxMatchCount > 0
 				var leaks []string
 				if c.Kind == "list" {
 					for _, e := range c.List.Repos {
-						if !allowed(e.Repository.Name) {
-							leaks = append(leaks, "list entry "+e.Repository.Name)
+						if !allowedID(e.Repository.ID) {
+							leaks = append(leaks, fmt.Sprintf("list entry %s (id %d)", e.Repository.Name, e.Repository.ID))
 						}
 					}
 					for id := range c.List.ReposMap {
@@ -167,17 +178,17 @@ func runC23(t *testing.T, tp *simrt.Tape, keepTrace bool) hx.Result {
 						continue
 					}
 					for i := range r.Files {
-						if !allowed(r.Files[i].Repository) {
-							fileLeak = append(fileLeak, r.Files[i].Repository+"/"+r.Files[i].FileName)
+						if !allowedID(r.Files[i].RepositoryID) {
+							fileLeak = append(fileLeak, fmt.Sprintf("%s(id %d)/%s", r.Files[i].Repository, r.Files[i].RepositoryID, r.Files[i].FileName))
 						}
 					}
 					for name, u := range r.RepoURLs {
-						if !allowed(name) {
+						if !allowedURL(u) {
 							urlLeak = append(urlLeak, name+"="+u)
 						}
 					}
 					for name, u := range r.LineFragments {
-						if !allowed(name) {
+						if !allowedURL(u) {
 							fragLeak = append(fragLeak, name+"="+u)
 						}
 					}
@@ -211,13 +222,18 @@ func runC23(t *testing.T, tp *simrt.Tape, keepTrace bool) hx.Result {
 				}
 				var own []zoekt.FileMatch
 				for i := range want {
-					if allowed(want[i].Repository) {
+					if allowedID(want[i].RepositoryID) {
 						own = append(own, want[i])
 					}
 				}
 				got := c.files()
 				if hasBranchesRepos(c.Q) {
 					got, own = stripBranches(got), stripBranches(own)
+				}
+				if limited || dupNames {
+					// under match limits a subset is returned; with same-named repositories the
+					// name-based reference for repository atoms is ambiguous: only isolation is judged
+					continue
 				}
 				if w == 3 || !hasTypeRepo(c.Q) {
 					if d := diffSets(normFiles(got, false), normFiles(own, false)); d != "" {
